@@ -360,9 +360,12 @@ class BaseState(ABC):
                     if isinstance(self, Polarization)
                     else self.envelope.polarization
                 )
-                out = state.measure(separate_measurement=True, destructive=destructive)
-                for k, v in out.items():
-                    result[1][k] = v
+                if not state.measured:
+                    out = state.measure(
+                        separate_measurement=True, destructive=destructive
+                    )
+                    for k, v in out.items():
+                        result[1][k] = v
 
         if C.contractions and not destructive:
             self.contract()
